@@ -380,7 +380,9 @@ JArgs(r) ==
         devLegacyHint == /\ r.wt = "legacy" /\ named /\ D.k = "wit"
                          /\ \E w \in {o.addr, o.addr2, o.addr3} : w # AddrT(r.facts, r.y, D)
         \* contradictory arguments are not noticed: script from one argument, address / encoding from another
-        devContra == C = {} /\ named
+        \* (without a lock_script an address that IS examined always supplies the payload; a foreign address is never a
+        \* matter of contradiction)
+        devContra == C = {} /\ named /\ ~ArgMustRefuse(g) /\ ((r.a # <<>> /\ ~g.hasl) => D.p = g.da.p)
         Attribution == IF devLen THEN "payload-length-not-checked"
                        ELSE IF devNotExamined THEN "address-not-examined-beside-other-arguments"
                        ELSE IF devLegacyHint THEN "legacy-witness-type-base58-address-for-witness-script"
